@@ -21,6 +21,21 @@ VERIF = os.path.dirname(os.path.dirname(os.path.abspath(__file__)))
 HARNESS_DIR = os.path.join(VERIF, "harness")
 BUILD = os.path.join(VERIF, ".build")
 TARGET = os.path.join(BUILD, "target")
+# Development aid (seeded-change runs in parallel): VERIF_REPO=<copy of the repository> makes
+# this process use a private copy of the harness crate whose path dependencies point at that
+# copy, with its own target directory. The registered commands never set it: they use /repo.
+_ALT_REPO = os.environ.get("VERIF_REPO")
+if _ALT_REPO:
+    _tag = "alt-" + re.sub(r"[^A-Za-z0-9]", "_", _ALT_REPO.strip("/"))
+    BUILD = os.path.join(VERIF, ".build", _tag)
+    TARGET = os.path.join(BUILD, "target")
+    _h = os.path.join(BUILD, "harness")
+    if os.path.exists(_h):
+        shutil.rmtree(_h)
+    shutil.copytree(HARNESS_DIR, _h, ignore=shutil.ignore_patterns("target"))
+    _ct = open(os.path.join(_h, "Cargo.toml")).read().replace('"/repo/io"', '"%s/io"' % _ALT_REPO).replace('"/repo"', '"%s"' % _ALT_REPO)
+    open(os.path.join(_h, "Cargo.toml"), "w").write(_ct)
+    HARNESS_DIR = _h
 KANI_HOME = os.path.expanduser("~/.kani/kani-0.68.0")
 KANI_LIB_C = os.path.join(KANI_HOME, "library/kani/kani_lib.c")
 ENV = dict(os.environ, CARGO_NET_OFFLINE="true", CARGO_TERM_COLOR="never")
